@@ -915,6 +915,12 @@ def run(ctx):
                     disagreements.append((bad, k, raw, wm, h, d))
                 elif len(ctx.samples) < 6 and (info["ep_set"] or info["ck"]) and wm:
                     ctx.sample({"fen": info["fen"], "raw": raw, "cpp": h.partition(" # ")[0][:400], "model_and_spec": d[:600]})
+    ctx.notes["tables"] = ("king/knight/pawn attacks, rMasks/bMasks, epMask, squaresBetween and getDirection 64x64 compared "
+                           "entry by entry; rook/bishop attacks compared for EVERY subset of the relevant-occupancy mask of every "
+                           "square (107 648 patterns, ray walk and magic lookup of the model vs the C++ table) plus random occupancies")
+    ctx.notes["observation_givesCheck"] = ("givesCheck answers 'no check' for a king stepping next to the enemy king (an illegal move); "
+                                           "playing such a move on the board would leave the enemy king attacked by the king. Counted under "
+                                           "givesCheck_differs_on_illegal_king_move; never seen for a legal move or for a non-king move.")
     ctx.notes["max_pseudo_legal_list_length"] = maxlen
     ctx.notes["max_pseudo_legal_list_fen"] = maxlen_raw
     ctx.traces_validated = ctx.counts.get("positions_model_and_spec", 0)
